@@ -522,6 +522,7 @@ func famSesHb(t *testing.T, r *Rec) {
 					r.Cover(fmt.Sprintf("hb/v4/%s/I=%d/%s/traffic=%s", tr, I, dl.name, b01(traffic)))
 					if strings.Join(got, " ") != strings.Join(exp, " ") {
 						r.Violate("C07", fmt.Sprintf("C07/v4/%s/%s", tr, dl.name), fmt.Sprintf("I=%d T=%d: heartbeat timeline %v, want %v", I, T, got, exp), lines)
+						r.Violate("C19", fmt.Sprintf("C19/session-timers/v4/%s/%s", tr, dl.name), fmt.Sprintf("I=%d T=%d: the session's ping/deadline timers fired as %v, want %v", I, T, got, exp), lines)
 					}
 				}
 			}
@@ -693,6 +694,9 @@ func hbExtra(t *testing.T, r *Rec) {
 			r.Cover(fmt.Sprintf("hb/extra/%s/%s", tr, sc.name))
 			if strings.Join(got, " ") != strings.Join(sc.exp, " ") {
 				r.Violate("C07", fmt.Sprintf("C07/%s/%s", sc.name, tr), fmt.Sprintf("I=%d T=%d: heartbeat timeline %v, want %v", I, T, got, sc.exp), sc.lines)
+				// the same timeline is what C19 promises of the session's timers: a refreshed timer fires one
+				// full period after the refresh and only once, a cancelled one never
+				r.Violate("C19", fmt.Sprintf("C19/session-timers/%s/%s", sc.name, tr), fmt.Sprintf("I=%d T=%d: the session's ping/deadline timers fired as %v, want %v", I, T, got, sc.exp), sc.lines)
 			}
 		}
 	}
